@@ -74,6 +74,39 @@ def in_domain(c):
     return True
 
 
+def unmapped_offset_only(h, g):
+    """every date-time of the grid that timezone_name() cannot name really has an offset that no mapped zone has at that instant"""
+    import datetime
+    import pytz
+    from hszinc import zoneinfo
+    found = False
+
+    def walk(v):
+        nonlocal found
+        if isinstance(v, datetime.datetime) and v.tzinfo is not None:
+            try:
+                zoneinfo.timezone_name(v)
+            except ValueError:
+                off = v.utcoffset()
+                for olson in zoneinfo.get_tz_map().values():
+                    if v.astimezone(pytz.utc).astimezone(pytz.timezone(olson)).utcoffset() == off:
+                        return False       # a zone does have that offset at that instant: not the known finding
+                found = True
+        elif isinstance(v, list):
+            return all(walk(x) is not False for x in v)
+        elif isinstance(v, h.Grid):
+            return unmapped_offset_only(h, v) is not False
+        elif hasattr(v, 'values') and not isinstance(v, str):
+            return all(walk(x) is not False for x in v.values())
+        return True
+    ok = all(walk(x) is not False for x in g.metadata.values())
+    for c, m in g.column.items():
+        ok = ok and all(walk(x) is not False for x in m.values())
+    for row in g:
+        ok = ok and all(walk(x) is not False for x in row.values())
+    return ok and found
+
+
 def run(ctx):
     h = codec.H()
     rng = random.Random(ctx.seed + 7)
@@ -92,6 +125,25 @@ def run(ctx):
             tree, _ = c05.spell_grid(rng, base, rng.choice([0, 1, 2]))
             tree['meta']['ver'] = ver
             docs.append((h.MODE_JSON, json.dumps(tree)))
+    # zone-less date-times (the reader gives them a fixed-offset tzinfo) inside the skipped / repeated local hour of a zone
+    # that has the same standard offset: the writer must name a zone that has that offset AT THAT INSTANT
+    import datetime
+    import pytz
+    zl = []
+    for zname in rng.sample(sorted(pytz.common_timezones), 60 if thorough else 25) + ['America/Anchorage', 'America/New_York', 'Europe/Paris', 'Australia/Lord_Howe']:
+        tz = pytz.timezone(zname)
+        tt = [t for t in getattr(tz, '_utc_transition_times', []) if 1972 <= t.year <= 2036]
+        for t in rng.sample(tt, min(len(tt), 3)):
+            for before in (True, False):
+                probe = pytz.utc.localize(t + datetime.timedelta(minutes=-30 if before else 30))
+                for off in {tz.utcoffset(t - datetime.timedelta(days=2), is_dst=False), tz.utcoffset(t + datetime.timedelta(days=2), is_dst=False)}:
+                    if off is None or off.total_seconds() % 60 or off.total_seconds() == 0:
+                        continue
+                    loc = probe.astimezone(datetime.timezone(off))
+                    zl.append(loc.isoformat())
+    for iso in dict.fromkeys(zl):
+        docs.append((h.MODE_ZINC, 'ver:"3.0"\nts,n\n%s,1\n' % iso))
+        docs.append((h.MODE_JSON, json.dumps({'meta': {'ver': '3.0'}, 'cols': [{'name': 'ts'}], 'rows': [{'ts': 't:' + iso}]})))
     seen = set()
     import warnings
     warnings.simplefilter('ignore')
@@ -113,6 +165,12 @@ def run(ctx):
                 d1 = h.dump(g, mode=m2)
                 d2 = h.dump(g, mode=m2)
             except Exception as e:  # noqa
+                if isinstance(e, ValueError) and 'Unable to get timezone' in str(e) and unmapped_offset_only(h, g):
+                    # the known finding: no mapped zone has that offset at that instant, and ZINC / JSON need a zone name
+                    ctx.known('c07-unmapped-offset', KNOWN['c07-unmapped-offset'], rep)
+                    ctx.count('known:unmapped-offset')
+                    outs = None
+                    break
                 ctx.violation('impl-counterexample', 'a parsed grid cannot be dumped as %s: %s: %s' % (m2, type(e).__name__, e), rep)
                 return
             if codec.canon(g) != before:
@@ -138,6 +196,8 @@ def run(ctx):
             if d3 != d1:
                 ctx.violation('impl-counterexample', 'parse-then-dump (%s) is not idempotent' % m2, dict(rep, once=d1[:3000], twice=d3[:3000]))
                 return
+        if outs is None:
+            continue
         # ZINC -> JSON -> ZINC and JSON -> ZINC -> JSON
         z1 = outs[h.MODE_ZINC]
         j_of_z = h.dump(h.parse(z1, mode=h.MODE_ZINC), mode=h.MODE_JSON)
